@@ -433,4 +433,114 @@ theorem dimL_le (leap : Bool) (m : Nat) : dimL leap m ≤ 31 := by
   · simpa using dimTable_le m
   · simp
 
+/-! ### the micro sign: `µs` is `us` -/
+/-- the micro sign written as `u` -/
+def deMicro (c : Nat) : Nat := if c = 181 then 117 else c
+
+theorem deMicro_isDigit (c : Nat) : isDigit (deMicro c) = isDigit c := by
+  unfold deMicro; split
+  · rename_i h; subst h; rfl
+  · rfl
+
+theorem deMicro_of_digit (c : Nat) (h : isDigit c = true) : deMicro c = c := by
+  rw [isDigit_iff] at h; unfold deMicro; split <;> omega
+
+theorem spanDigits_deMicro (s : List Nat) :
+    spanDigits (s.map deMicro) = ((spanDigits s).1, (spanDigits s).2.map deMicro) := by
+  induction s with
+  | nil => rfl
+  | cons c r ih =>
+    by_cases h : isDigit c = true
+    · have h' : isDigit (deMicro c) = true := by rw [deMicro_isDigit]; exact h
+      simp only [List.map_cons]
+      rw [spanDigits, spanDigits]
+      simp only [h, h', if_true, ih]
+      rw [deMicro_of_digit c h]
+    · have h' : ¬ isDigit (deMicro c) = true := by rw [deMicro_isDigit]; exact h
+      simp only [List.map_cons]
+      rw [spanDigits, spanDigits]
+      simp [h, h']
+
+theorem unitAt_deMicro (r : List Nat) :
+    unitAt (r.map deMicro) = (unitAt r).map (fun p => (p.1, p.2.map deMicro)) := by
+  rcases r with _ | ⟨a, _ | ⟨b, r2⟩⟩
+  · rfl
+  · by_cases h1 : a = 181
+    · subst h1; rfl
+    · have : deMicro a = a := by simp [deMicro, h1]
+      simp only [List.map_cons, List.map_nil, this]
+      unfold unitAt
+      split <;> simp_all
+  · by_cases h1 : a = 181
+    · subst h1
+      by_cases h2 : b = 115
+      · subst h2; simp [deMicro, unitAt]
+      · have hb : deMicro b ≠ 115 := by unfold deMicro; split <;> omega
+        simp only [List.map_cons]
+        have e1 : unitAt (181 :: b :: r2) = none := by unfold unitAt; split <;> simp_all
+        have e2 : unitAt (deMicro 181 :: deMicro b :: List.map deMicro r2) = none := by
+          have : deMicro 181 = 117 := rfl
+          rw [this]; unfold unitAt; split <;> simp_all
+        rw [e1, e2]; rfl
+    · have ha : deMicro a = a := by simp [deMicro, h1]
+      simp only [List.map_cons, ha]
+      by_cases h2 : b = 115
+      · subst h2
+        have : deMicro 115 = 115 := rfl
+        rw [this]
+        unfold unitAt
+        split <;> simp_all
+        all_goals (rename_i hx hq; exact hx _ hq.2.symm)
+      · have hb : deMicro b ≠ 115 := by unfold deMicro; split <;> omega
+        unfold unitAt
+        split <;> simp_all
+
+/-- the optional `.digits` part of one component -/
+def fracSplit (r1 : List Nat) : Option (List Nat) × List Nat :=
+  match r1 with
+  | 46 :: r => (some (spanDigits r).1, (spanDigits r).2)
+  | _ => (none, r1)
+
+theorem parseItems_succ (fuel : Nat) (s : List Nat) :
+    parseItems (fuel + 1) s =
+      match unitAt (fracSplit (spanDigits s).2).2 with
+      | none => none
+      | some (u, r3) =>
+        if r3.isEmpty then some [⟨(spanDigits s).1, (fracSplit (spanDigits s).2).1, u⟩]
+        else (parseItems fuel r3).map (⟨(spanDigits s).1, (fracSplit (spanDigits s).2).1, u⟩ :: ·) := by
+  rw [parseItems]; rfl
+
+theorem fracSplit_deMicro (r1 : List Nat) :
+    fracSplit (r1.map deMicro) = ((fracSplit r1).1, (fracSplit r1).2.map deMicro) := by
+  rcases r1 with _ | ⟨c, r⟩
+  · rfl
+  · by_cases hc : c = 46
+    · subst hc
+      have h46 : deMicro 46 = 46 := rfl
+      simp only [List.map_cons, h46, fracSplit, spanDigits_deMicro]
+    · have hc' : deMicro c ≠ 46 := by unfold deMicro; split <;> omega
+      have e1 : fracSplit (deMicro c :: List.map deMicro r) = (none, deMicro c :: List.map deMicro r) := by
+        unfold fracSplit; split
+        · rename_i heq; simp at heq; exact absurd heq.1 hc'
+        · rfl
+      have e2 : fracSplit (c :: r) = (none, c :: r) := by
+        unfold fracSplit; split
+        · rename_i heq; simp at heq; exact absurd heq.1 hc
+        · rfl
+      simp only [List.map_cons, e1, e2]
+
+/-- the grammar reads `µs` exactly as `us`: replacing every micro sign by `u` changes nothing, in ANY text -/
+theorem parseItems_deMicro (fuel : Nat) (s : List Nat) :
+    parseItems fuel (s.map deMicro) = parseItems fuel s := by
+  induction fuel generalizing s with
+  | zero => rfl
+  | succ fuel ih =>
+    rw [parseItems_succ, parseItems_succ, spanDigits_deMicro]
+    simp only [fracSplit_deMicro, unitAt_deMicro]
+    cases h : unitAt (fracSplit (spanDigits s).2).2 with
+    | none => rfl
+    | some p =>
+      obtain ⟨u, r3⟩ := p
+      simp [ih]
+
 end Cel.Time
